@@ -118,6 +118,18 @@ class Number(Element):
         float,
     ) + Element.allowed_value_types
 
+    def check_value(self, value):
+        if value is not None:
+            # a value the property's format cannot render could never be
+            # published: refuse it before it is stored
+            try:
+                values.num_to_str(value, self._definition.format)
+            except (OverflowError, TypeError, ValueError) as e:
+                raise ValueError(
+                    f"Value {value!r} of {self.name} cannot be rendered as {self._definition.format}"
+                ) from e
+        return value
+
     def to_def_message(self):
         return self.def_message_class(
             name=self._definition.name,
